@@ -119,6 +119,23 @@ def nsec_chain(zone, origin_labels):
     return chain, signed
 
 
+def bitmap_wire(types):
+    """RFC 4034 4.1.2 encoding of a set of type numbers: windows in increasing order, each with
+    the minimal bitmap length (no trailing zero octets), windows without members omitted"""
+    wins = {}
+    for t in types:
+        wins.setdefault(t >> 8, set()).add(t & 0xFF)
+    out = bytearray()
+    for w in sorted(wins):
+        bits = wins[w]
+        n = max(bits) // 8 + 1
+        bm = bytearray(n)
+        for b in bits:
+            bm[b // 8] |= 0x80 >> (b % 8)
+        out += bytes([w, n]) + bm
+    return bytes(out)
+
+
 def bitmap_types(windows_wire):
     """decode an NSEC type bitmap (wire) into a set of type numbers"""
     out = set()
